@@ -1,5 +1,6 @@
 """Lcip (CIP decoder sub-check: C19, C05, C01; C06 and C07 do not apply) configuration for ./check"""
 CONF = {
+    'coq_sample': 12,   # cases re-evaluated inside Coq by vm_compute against the extracted runner's output
     'interesting': ['truncated-prefix-of-valid', 'segment-shape', 'path-size-extreme', 'additional-status-extreme', 'request', 'response', 'additional-status',
                     'no-data', 'error-after-fields-set', 'residue-after-error', 'decode-error', 'malformed'],
     'rule': 'Requests built by the harness with every class-segment shape (8-bit, 16-bit, each cut after every octet, other type, none) x every instance-segment '
